@@ -56,7 +56,7 @@ pub fn uchar() -> BoxedStrategy<char> {
 
 /// lengths around the sizes at which buffers, inline strings and block writers usually change behaviour
 pub fn long_len() -> BoxedStrategy<usize> {
-    prop::sample::select(vec![127usize, 128, 129, 255, 256, 257, 511, 512, 513, 514, 600, 1023, 1024, 1025, 2049, 4097]).boxed()
+    prop::sample::select(vec![127usize, 128, 129, 255, 256, 257, 511, 512, 513, 514, 600, 1023, 1024, 1025, 2049, 4097, 5000, 8193, 12_289]).boxed()
 }
 
 /// a long identifier: `first` followed by identifier characters up to one of the lengths above
@@ -77,7 +77,7 @@ pub fn long_ident(first: &'static str, rest: &'static str) -> BoxedStrategy<Stri
 
 /// a long text: a short unit (ASCII, two-, three- and four-byte characters) repeated up to one of the lengths above (in bytes)
 pub fn long_text() -> BoxedStrategy<String> {
-    (long_len(), prop::sample::select(vec!["a", "ab ", "é", "日本", "\u{1F600}", "x\"y", "a\\", "$a ", "\n"]), 0usize..4)
+    (long_len(), prop::sample::select(vec!["a", "ab ", "é", "日本", "\u{1F600}", "x\"y", "a\\", "$a ", "\n", "\u{1}", "\u{1}a", "ab\u{1f}é"]), 0usize..7)
         .prop_map(|(n, unit, lead)| {
             let mut s = "x".repeat(lead);
             while s.len() < n {
@@ -193,6 +193,8 @@ pub fn finite_f64() -> BoxedStrategy<f64> {
         2 => (1.0f64..10.0, -320i32..309).prop_map(|(m, e)| { let v = m * 10f64.powi(e); if v.is_finite() { v } else { f64::MAX } }),
         1 => prop::sample::select(vec![0.0, -0.0, f64::MIN_POSITIVE, f64::MAX, f64::MIN, 5e-324, 1e21, 1e22, 1.7976931348623157e308, 0.1, 0.3, 1.0/3.0, 123456789.123456789, 1e-7, 9007199254740993.0, 1e15, 1e16, 1e17]),
         3 => any::<u64>().prop_map(f64::from_bits).prop_filter("finite", |f| f.is_finite()),
+        // doubles that are exactly a single-precision value (readings of 32-bit devices): 21.3f32 is not 21.3
+        2 => prop_oneof![any::<f32>().prop_filter("finite", |f| f.is_finite()), (-4000i32..4000).prop_map(|i| i as f32 / 10.0), prop::sample::select(vec![21.3f32, 0.1, 0.2, 1e-10, 3.4e38, f32::EPSILON, 16_777_217.0, 72.5])].prop_map(|f| f as f64),
     ]
     .boxed()
 }
@@ -458,9 +460,16 @@ enum Cell {
 
 pub fn grid_of(cfg: GenCfg, inner: BoxedStrategy<RVal>) -> BoxedStrategy<RGrid> {
     let col_meta = prop_oneof![
-        4 => Just(None),
-        1 => Just(Some(RDict::new())),
-        3 => dict_of(cfg, inner.clone(), 3).prop_map(Some),
+        8 => Just(None),
+        2 => Just(Some(RDict::new())),
+        6 => dict_of(cfg, inner.clone(), 3).prop_map(Some),
+        // column meta as history / point grids carry it: a unit, a zone, a kind, a display name - as plain strings
+        1 => prop::collection::btree_map(
+            prop::sample::select(vec!["unit", "tz", "kind", "dis", "id", "ver"]).prop_map(String::from),
+            prop::sample::select(vec!["kW", "°F", "m", "%", "New_York", "UTC", "Number", "Str", "3.0", "x"]).prop_map(|s| RVal::Str(s.to_string())),
+            1..3
+        )
+        .prop_map(Some),
     ];
     let min_cols = if cfg.wf { 1 } else { 0 };
     let cols = btree_map(name(cfg), col_meta, min_cols..=5).prop_shuffle_cols();
